@@ -17,6 +17,7 @@ struct vf_typeinfo { const struct vf_typeinfo* base; int id; };
 extern void* vf_exc;                       /* pending exception object, 0 if none */
 extern const struct vf_typeinfo* vf_exc_ti;
 extern int vf_exc_caughtall;
+void vf_lp_enter(void); const struct vf_typeinfo* vf_lp_ti(void); void vf_lp_resume(void);   /* landing-pad protocol of the generated C */
 extern int vf_bound_hit;
 int vf_ti_is_a(const struct vf_typeinfo* thrown, const struct vf_typeinfo* target);
 void vf_unreachable(void);
